@@ -148,7 +148,10 @@ def generate(streams: Streams, tier: str, index: int) -> dict:
     for _ in range(n_ops):
         k = rng.choices(kinds, w)[0]
         if k == "new_droplet":
-            ops.append({"op": k, **gen.random_droplet(rng, lay if rng.random() < 0.8 else lay2)})
+            # "made": how the object came to be — constructor, pickled, or with its record held as
+            # a 0-d structured array (what refine_droplet leaves behind in a refined droplet)
+            ops.append({"op": k, **gen.random_droplet(rng, lay if rng.random() < 0.8 else lay2),
+                        "made": rng.choice(["ctor", "ctor", "ctor", "refined", "pickled"])})
         elif k == "em_new":
             ops.append({"op": k, "src": [R(16) for _ in range(rng.randint(0, 5))],
                         "copy": rng.random() < 0.8, "via": rng.choice(["list", "gen", "emulsion", "dtype"]),
@@ -538,6 +541,13 @@ def run_op(M: Machine, step: int, op: dict) -> str | None:
 
     if k == "new_droplet":
         d = scenes.make_droplet(op)
+        made = op.get("made", "ctor")
+        if made == "refined":
+            d = scenes.refined_droplet(d)
+        elif made == "pickled":
+            import pickle
+
+            d = pickle.loads(pickle.dumps(d))
         M.hold(d)
         return None
 
